@@ -30,6 +30,8 @@ STUBS = [
 
 def sym_scalar(x, /, **kw):
     if _has_sym(x):
+        if isinstance(x, SymArray) and all(isinstance(e, SymFloat) for e in x.a.flat):
+            return x          # np.asarray returns a float64 array itself (no copy): callers that write into it are visible
         return ew_arr(lambda e: tf(e), x)
     import fuzzylite
     return _np.asarray(x, dtype=fuzzylite.library.settings.float_type, **kw)
